@@ -5,6 +5,7 @@ Every call token is executed through `Bee2V.C10.run` on the `Bundle` of Machines
 theorems); `m` = relocation.  Output: one token per executed call (`.` nothing, hex data, `1`/`0` verdict).
 -/
 import Bee2V.C10.Machines
+import Bee2V.C10.Refined
 import Bee2V.C03.BashF
 import Bee2V.Base.Proto
 namespace Bee2V.C10.Drv
@@ -26,6 +27,25 @@ def peek {σ ι : Type} (B : Bundle σ ι) (st : σ) (i : ι) : Bytes :=
 
 /-- run the call tokens; `parse st tok` yields the calls of one token (it may look at the state: `V` = verify
 with the right tag, DWP `E` = encrypt then authenticate the cipher text) -/
+def runToksD {σ ι : Type} (B : Bundle σ ι) (parse : σ → String → Option (List ι)) (dump : σ → Option String) :
+    σ → List String → List String → Option (List String)
+  | _, [], acc => some acc.reverse
+  | st, t :: ts, acc =>
+    if t = "m" then
+      let r := run B st [Call.reloc]
+      runToksD B parse dump r.1 ts (r.2.reverse.map showOut ++ acc)
+    else if t = "D" then
+      match dump st with
+      | none => none
+      | some d => runToksD B parse dump st ts (d :: acc)
+    else
+      match parse st t with
+      | none => none
+      | some ops =>
+        let r := run B st (ops.map Call.op)
+        runToksD B parse dump r.1 ts (r.2.reverse.map showOut ++ acc)
+
+/-- without a state dump (`D` is then parsed as a call token of the bundle, if it has one) -/
 def runToks {σ ι : Type} (B : Bundle σ ι) (parse : σ → String → Option (List ι)) :
     σ → List String → List String → Option (List String)
   | _, [], acc => some acc.reverse
@@ -83,7 +103,7 @@ def pAead {σ : Type} (B : Bundle σ AeadOp) (st : σ) (tok : String) : Option (
   | ["V"] => pure [.verify (peek B st .get)]
   | _ => none
 
-def pKrp (st : C01.KrpSt) (tok : String) : Option (List KrpOp) :=
+def pKrp (st : KrpR) (tok : String) : Option (List KrpOp) :=
   match tok.splitOn ":" with
   | ["g", n, h] => do
     let n ← parseNat n; let h ← hx h
@@ -127,11 +147,11 @@ def pHotp (st : C03.HotpSt) (tok : String) : Option (List HotpOp) :=
   | ["g"] => pure [.get]
   | _ => none
 
-def pTotp (st : TotpSt) (tok : String) : Option (List TotpOp) :=
+def pTotp (st : TotpR) (tok : String) : Option (List TotpOp) :=
   match tok.splitOn ":" with
   | ["r", t] => do let t ← parseNat t; if !tOk t then none else pure [.next t]
   | ["v", t, o] => do let t ← parseNat t; let o ← hx o; if !tOk t || !strOk o then none else pure [.verify t o]
-  | ["V", t] => do let t ← parseNat t; if !tOk t then none else pure [.verify t (peek totpB st (.next t))]
+  | ["V", t] => do let t ← parseNat t; if !tOk t then none else pure [.verify t (peek totpRB st (.next t))]
   | _ => none
 
 def qOk (q : Bytes) (st : C03.OcraSt) : Bool := 4 ≤ q.length && q.length ≤ 2 * st.qMax
@@ -211,11 +231,15 @@ def session : List String → Option String
   | "krp" :: k :: lvl :: ts => do
     let k ← hx k; let lvl ← hx lvl
     if !keyOk k || lvl.length ≠ 12 then none
-    fin (runToks (krpB Cb) pKrp (C01.krpStart k lvl) ts [])
+    -- the refined machine (members of belt_krp_st; prior memory content 0xC3 as in the harness); `D` dumps them
+    fin (runToksD (krpRB Cb) pKrp (fun st => some (toHex (st.key ++ st.block ++ st.keyNew)))
+      (krpRStart k lvl (List.replicate 32 0xC3) (List.replicate 32 0xC3)) ts [])
   | "bhash" :: l :: ts => do
     let l ← parseNat l
     if l = 0 ∨ l % 16 ≠ 0 ∨ l > 256 then none
-    fin (runToks (bashHashB F) (pA (bashHashB F) (fun _ => l / 4)) (C03.hashStart l) ts [])
+    fin (runToksD (bashHashRB F) (pA (bashHashRB F) (fun _ => l / 4))
+      (fun st => some (toHex (st.sp.s ++ st.s1) ++ ":" ++ toString st.sp.pos ++ ":" ++ toString st.sp.bufLen))
+      (bashHashRStart l (List.replicate 192 0xC3)) ts [])
   | "prg" :: l :: d :: a :: k :: ts => do
     let l ← parseNat l; let d ← parseNat d; let a ← hx a; let k ← hx k
     if !(l == 128 || l == 192 || l == 256) || !(d == 1 || d == 2) || !prgLenOk a k l then none
@@ -234,7 +258,8 @@ def session : List String → Option String
   | "totp" :: dg :: k :: ts => do
     let dg ← parseNat dg; let k ← hx k
     if dg < 4 ∨ dg > 9 then none
-    fin (runToks totpB pTotp (totpStart dg k) ts [])
+    fin (runToksD totpRB pTotp (fun st => some (toHex (st.t ++ st.mac ++ st.otp)))
+      (totpRStart dg k (List.replicate 8 0xC3) (List.replicate 32 0xC3) (List.replicate 10 0xC3)) ts [])
   | "ocra" :: su :: k :: ts => do
     let su ← hx su; let k ← hx k
     if su.any (· == 0) then none
